@@ -127,7 +127,7 @@ Fixpoint pp_stmt (s : stmt) : list tok :=
   | SSeq body => flat_map pp_stmt body
   | STuple e binders body =>
       tpl SCall "# [ allow ( unreachable_patterns ) ] match & ( $0 ) { ( $1 ) => { $2 } , _ => unreachable ! ( $3 ) , }"
-          [pp_vexpr e; sep_by (comma SCall) (map (pp_binder NTupleElem) binders);
+          [pp_vexpr e; term_by (comma SCall) (map (pp_binder NTupleElem) binders);
            flat_map pp_stmt body; str_lit "Plain tuple match should always succeed" SCall]
   | SRange sp e r _ p =>
       tpl sp "match & ( $0 ) { $1 => { } , _ => { $2 } }" [pp_vexpr e; r; pp_push p]
